@@ -145,7 +145,7 @@ PROPS = {
     },
     "C03": {
         "module": "TcVerif.Props.C03",
-        "theorems": ["Tc.C01_source_transform_is_model", "Tc.C03_source_transform_symm", "Tc.C03_source_conflict_rule", "Tc.C03_transform_symm", "Tc.C03_order_independent₂", "Tc.merged_comm", "Tc.C03_later_update_wins",
+        "theorems": ["Tc.C01_source_transform_is_model", "Tc.C03_source_transform_symm", "Tc.C03_source_conflict_rule", "Tc.C03_source_other_rules", "Tc.C03_transform_symm", "Tc.C03_order_independent₂", "Tc.merged_comm", "Tc.C03_later_update_wins",
                      "Tc.C03_delete_beats_update", "Tc.C03_different_props_kept", "Tc.C03_different_tasks_kept",
                      "Tc.C03_concurrent_creates_merge", "Tc.C03_causal_override", "Tc.C03_dropped_only_by_rule",
                      "Tc.rebase_symm", "Tc.C01_exec_reachable"],
